@@ -29,7 +29,7 @@ func ValidateTraces(r *Run, module, cfgText string, lines [][]byte, label string
 			buf.WriteByte('\n')
 		}
 		res, err := RunTLC(TLCOpts{Module: module, CfgText: cfgText, Workers: 1, DFS: true, Timeout: 30 * time.Minute,
-			Extra: map[string][]byte{"traces.ndjson": buf.Bytes()}, Heap: "8g"})
+			Extra: map[string][]byte{"traces.ndjson": buf.Bytes()}, Heap: "8g", Xss: "512m"})
 		if err != nil || res.TimedOut {
 			out := res.Tail(30)
 			res.Cleanup()
